@@ -313,7 +313,7 @@ impl Prop for C04 {
                "assumptions": ["observational equality as in the statement ('shows', 'displayed'): a blank glyph has no foreground, a solid one no background", "UTF-8 'modern terminal' output is excluded"]})
     }
     fn total(&mut self, ctx: &Ctx) -> u64 {
-        N_OPTS * ctx.tier.pick(6, 300)
+        N_OPTS * ctx.tier.pick(24, 300)
     }
     fn run_case(&mut self, ctx: &mut Ctx, k: u64) {
         let mut rng = ctx.rng(k);
